@@ -49,7 +49,8 @@ TRUSTED = ["pathlib.PurePosixPath (compared with the model on every generated pa
            "harness/aoef.py conversions (shared with C01)"]
 ASSUMPTIONS = ["POSIX path flavour"]
 NOT_COMPARED = ["creation of the target file's parent directory before the conversion fails",
-                "error messages (only: an exception is raised and nothing is left behind in the target directory)",
+                "error messages and error classes (only: an exception is raised and nothing is left behind in the "
+                "target directory)",
                 "the spelling of a loaded path beyond pathlib equality (str(Path(p)) is compared)"]
 
 PARTS = ["a", "b", "sub dir", "ünï", "x.y", ".hidden", "..", "...", " ", "rec.wav", "ñandú 1.WAV", "data", "audio", "a",
@@ -249,6 +250,8 @@ def _holds_stored(ctx, inp, out):
 
 def _cmp_sorted_val(inp, io, mo):
     a = {k: v for k, v in io.items() if k not in ("trace", "file_written", "left_behind")}
+    if "raise" in a and "raise" in mo:
+        return None         # the property pins *that* saving fails, not the class of the error
     if "val" in mo:
         mo = {"val": sorted(mo["val"])}
     return None if a == mo else "implementation and model disagree"
@@ -569,7 +572,7 @@ def _adapter_rows():
         r = rec(Path("/c18 probe/audio dir2/x.wav"))
         try:
             a.assemble_aoef(r, r.uuid)
-        except ValueError:
+        except Exception:  # noqa: BLE001  (the property pins that it fails, not the class of the error)
             return True
         return False
 
@@ -983,12 +986,12 @@ def _grid_cases(ctx):
             fails = _want_relocated({"r": p}, A, None) is None
             for B in GRID_LOAD:
                 n += 1
-                if B is None or (not fails and (n + len(p)) % 2 == 0):
+                if B is None or (not fails and (n + len(p)) % 3 == 0):
                     reloc.append({"collection": minimal[p], "save_dir": A, "load_dir": B, "dir_as": how,
                                   "load_as": "str" if n % 4 < 2 else "path"})
     ctx.exhaustive["stored: 8 types x recording path x save directory"] = {
         "types": len(aoefgen.TYPES), "recording_paths": GRID_REC, "save_dirs": GRID_SAVE, "cases": len(stored)}
-    ctx.exhaustive["relocate: 8 types x recording path x save directory x (load directory: None always; the others 1 in 2 when the save succeeds)"] = {
+    ctx.exhaustive["relocate: 8 types x recording path x save directory x (load directory: None always; the others 1 in 3 when the save succeeds)"] = {
         "load_dirs": GRID_LOAD, "cases": len(reloc)}
     return stored, reloc
 
@@ -1153,7 +1156,7 @@ def _histories(ctx, stored):
 
 
 def _collections(ctx):
-    stored, reloc, many, chain = _collection_cases(ctx, ctx.rng, ctx.budget(40, 600))
+    stored, reloc, many, chain = _collection_cases(ctx, ctx.rng, ctx.budget(32, 600))
     ctx.run_cases(OPS["stored"], _wf(ctx, stored))
     ctx.run_cases(OPS["relocate"], _wf(ctx, reloc))
     ctx.run_cases(OPS["relocate_many"], _wf(ctx, many))
